@@ -139,6 +139,12 @@ def check_store_one(op, xs):
     judge(op, xs, r.items, dict(ctx))
 
 
+def big_batch_enum():
+    for n in (255, 256, 257, 300):
+        for length in (n - 1, n, n + 1, 2 * n, 2 * n + 5):
+            yield {'op': ['batch', n], 'xs': [i % 7 for i in range(length)]}
+
+
 @st.composite
 def seq_case(draw):
     op = draw(st.sampled_from(OPS))
@@ -161,6 +167,8 @@ def check_single(case):
 
 
 def enum(tier):
+    for c in big_batch_enum():
+        yield c
     maxlen = 6 if tier == 'thorough' else 4
     for n in range(0, maxlen + 1):
         for xs in itertools.product([0, 1, None], repeat=n):
